@@ -584,6 +584,14 @@ func runFault(w *c16world, r respScript, k int, kind stepKind, rep *lib.Report) 
 			return
 		}
 	case "after-complete-response":
+		if kind == stepReset && o.panic == http.ErrAbortHandler && o.code == r.status && len(o.body) <= r.size && bytes.Equal(o.body, payload(r.size)[:len(o.body)]) {
+			// a RESET that follows the complete response may overtake it: TCP discards what the receiver has not read
+			// yet when the reset arrives, so the proxy may see the connection break inside the body (always possible,
+			// likely for a large body on a busy machine). Then the exchange is an "inside-body" one: aborted, with a
+			// prefix of the body - which is what was just checked
+			rep.Count("resets_overtaking_a_complete_response")
+			break
+		}
 		if o.panic != nil || o.code != r.status {
 			rep.Violate("C16:complete-response-lost:"+tag, fmt.Sprintf("%v: client got %d (panic %v)", r, o.code, o.panic), what)
 			return
